@@ -163,8 +163,48 @@ func runResizeCase(c *core.Case) *core.Result {
 		return res
 	}
 
+	overflowPrefix := rs.OldPages > 0 && rs.NewPages > rs.OldPages && r.Chance(1, 2)
 	if !w.Open() || !w.Run(prefix) {
 		return finish()
+	}
+	if overflowPrefix {
+		// grow a file whose meta area has spilled into the overflow area: fill
+		// the file completely, then let overflow-enabled transactions free and
+		// overwrite pages until meta pages live past the max size
+		for round := 0; round < 600; round++ {
+			before := len(w.Committed.Pages)
+			if !w.Begin(txfile.TxOptions{}) || !w.Alloc(1+r.Intn(8), 1) || !w.End(OCommit) {
+				return finish()
+			}
+			if len(w.Committed.Pages) == before {
+				break
+			}
+		}
+		for round := 0; round < 6; round++ {
+			if !w.Begin(txfile.TxOptions{EnableOverflowArea: true, WALLimit: 1000}) {
+				return finish()
+			}
+			if cf := w.candFree(); len(cf) > 2 {
+				if !w.Free(cf[r.Intn(len(cf))]) {
+					return finish()
+				}
+			}
+			for i := 0; i < 1+r.Intn(3); i++ {
+				if cw := w.candWrite(); len(cw) > 0 {
+					if !w.Write(cw[r.Intn(len(cw))], 0, 0) {
+						return finish()
+					}
+				}
+			}
+			if !w.End(OCommit) {
+				return finish()
+			}
+			if s := w.F.VerifSnapshot(); uint(s.MetaEnd) > s.MaxPages {
+				res.Add("resizes_with_overflow_area_in_use", 1)
+				break
+			}
+		}
+		w.NoCoverage = true
 	}
 	liveBefore := len(w.Committed.Pages)
 	extentBefore := w.Disk.MaxExtent
@@ -207,8 +247,17 @@ func runResizeCase(c *core.Case) *core.Result {
 		if !ok {
 			return finish()
 		}
-		if avail-availBefore != rs.NewPages-rs.OldPages {
-			w.violate("grow-capacity", "grow-capacity", "growing from %d to %d pages changed the allocatable pages from %d to %d (expected +%d)", rs.OldPages, rs.NewPages, availBefore, avail, rs.NewPages-rs.OldPages)
+		expect := rs.NewPages - rs.OldPages
+		if int(endBefore) > rs.OldPages {
+			// the file already extended past the old limit (meta pages in the
+			// overflow area): those pages are in use and do not become allocatable
+			expect = rs.NewPages - int(endBefore)
+			if expect < 0 {
+				expect = 0
+			}
+		}
+		if avail-availBefore != expect {
+			w.violate("grow-capacity", "grow-capacity", "growing from %d to %d pages changed the allocatable pages from %d to %d (expected +%d; file end before the resize at page %d)", rs.OldPages, rs.NewPages, availBefore, avail, expect, endBefore)
 			return finish()
 		}
 		res.Add("grow_capacity_checks", 1)
